@@ -548,7 +548,7 @@ func checkC03(e *Env) {
 		}
 	})
 	notJudged.Add("pairs_validated_at_a_reused_address(of "+itoa(reusePairs)+")", reuseHits)
-	concCalls := e.concurrentSmoke(drv, "C03", e.smokePool("C03", "chk"), e.pick(2, 12), e.pick(300, 1500), e.smokeAcceptedValid())
+	concCalls := e.concurrentSmoke(drv, "C03", e.smokePool("C03", "chk"), e.pick(8, 32), e.pick(300, 1500), e.smokeAcceptedValid())
 
 	// accept-set sizes per (language, word count)
 	sizes := newCounter()
